@@ -174,14 +174,10 @@ def run(res, tier, seed):
 
 
 def classify(ev, msg):
+    """only a class the trace spec tags itself (KD:<key>, exact) can be a known finding.  The two feature-based `from` classes
+    (anyFromOnlyOnAncestors, singleMultipleFromScope) were repaired in the code: a rejected xsl:number with from= is a violation"""
     if msg.startswith("KD:"):
         return msg.split(" ")[0][3:]
-    if ev["e"] == "Number":
-        ins = ev["instr"]
-        if ins["level"] == "any" and ins["hasFrom"]:
-            return "anyFromOnlyOnAncestors"
-        if ins["level"] in ("single", "multiple") and ins["hasFrom"]:
-            return "singleMultipleFromScope"
     return None
 
 
